@@ -29,6 +29,9 @@ def rand_tensor(rng, dtype, shape, axis, style):
     ncell = shape[0] if axis == 0 else shape[-1]
     mags = [10.0 ** rng.uniform(-4, 2) for _ in range(ncell)]
     offs = [rng.choice([0.0, 0.0, rng.uniform(-3, 3)]) * m for m in mags] if style == "offset" else [0.0] * ncell
+    if style == "negative":
+        # every value negative, the largest magnitude on a negative entry
+        offs = [-3.0 * m for m in mags]
     vals = []
     for j in range(n):
         c = cell_of(shape, axis, j)
@@ -48,7 +51,8 @@ def main(tier):
     gen_ok = not any(o[0].startswith("compile:") for o in broken)
     rng = ck.rng
     nbase = 60 if tier == "quick" else 500
-    shapes = [([4, 6], 0), ([4, 6], -1), ([6, 8], 0), ([3, 2, 4], 0), ([3, 2, 4], -1), ([2, 3, 2, 2], 0), ([2, 2, 2, 3], -1), ([5, 12], 0), ([12, 5], -1)]
+    shapes = [([4, 6], 0), ([4, 6], -1), ([6, 8], 0), ([3, 2, 4], 0), ([3, 2, 4], -1), ([2, 3, 2, 2], 0), ([2, 2, 2, 3], -1), ([5, 12], 0), ([12, 5], -1),
+              ([1, 8], 0), ([8, 1], -1), ([1, 3, 4], 0)]  # a kept axis of size 1 degrades to per-tensor
     calls, meta = [], []
     for i in range(nbase):
         dtype = ["float32", "float16", "bfloat16"][i % 3]
@@ -59,7 +63,7 @@ def main(tier):
         if qt in ("qint2", "qint4") and rng.random() < 0.6:
             divs = [g for g in range(1, per + 1) if per % g == 0]
             gs = rng.choice(divs)
-        style = rng.choice(["plain", "offset"])
+        style = rng.choice(["plain", "offset", "negative"])
         bits = rand_tensor(rng, dtype, shape, axis, style)
         base = {"fn": "quantize_weight", "dtype": dtype, "shape": shape, "bits": bits, "qtype": qt, "axis": axis, "group_size": gs, "optimizer": None}
         calls.append(base)
@@ -126,6 +130,8 @@ def main(tier):
             if is8:
                 ncell = shape[0] if axis == 0 else shape[-1]
                 want_shape = ([ncell] + [1] * (len(shape) - 1)) if axis == 0 else ([1] * (len(shape) - 1) + [ncell])
+                if ncell == 1:
+                    want_shape = []  # per-tensor
                 if r["scale"]["shape"] != want_shape:
                     ck.violation(f"scale shape {r['scale']['shape']} is not one value per kept-axis index {want_shape}", {"config": cfg})
                     continue
